@@ -220,6 +220,14 @@ def main(argv=None):
         reported.append(path)
     n_new = sum(1 for idx, v in viols if finding_key(check_id, cases[idx], v["sub"]) not in known
                 and ("site", check_id, v["sub"]) not in known)
+    # cases whose violations are all listed known findings are counted separately from new violations
+    by_case = {}
+    for idx, v in viols:
+        is_known = finding_key(check_id, cases[idx], v["sub"]) in known or ("site", check_id, v["sub"]) in known
+        by_case.setdefault(idx, []).append(is_known)
+    only_known = sum(1 for flags in by_case.values() if all(flags))
+    counts["violation"] = counts.get("violation", 0) - only_known
+    counts["known_finding"] = only_known
 
     # ---- evidence ----------------------------------------------------------------------------------
     level = mod.LEVEL
